@@ -5,6 +5,7 @@ struct narrowing WIDE → PAIR across the pipeline boundary, projections through
 the boundary, struct / array literals mixing references and constants.
 -/
 import Martian.ResolverStaticCheck
+import Martian.ResolverStaticTree
 
 namespace Proofs.ResolverStatic
 open Martian.Dataflow Martian.ResolverForks Martian.ResolverStatic
@@ -140,6 +141,59 @@ def exMapGOracle : Oracle := fun k =>
   else none
 
 def exMapGStore : Store := storeOfNodes exNm (staticProgram exMapG exNm).2 exMapGOracle
+
+/-- a pipeline mapped over an array literal whose body has a stage that depends on the split value,
+one that does not, a NESTED map call over a literal that mixes the split value with a constant,
+and a pass-through return of the split value -/
+def exPipe : Program :=
+  { structs := [("PAIR", [⟨"a", xInt⟩, ⟨"b", xStr⟩])]
+    callables :=
+      [ ("GEN", .stage [⟨"n", xInt⟩] [⟨"p", xPair⟩, ⟨"x", xInt⟩]),
+        ("WORK", .stage [⟨"x", xInt⟩, ⟨"k", xInt⟩] [⟨"y", xInt⟩, ⟨"q", xPair⟩]),
+        ("CONST", .stage [⟨"k", xInt⟩] [⟨"c", xInt⟩]),
+        ("USE", .stage [⟨"ys", ⟨"int", 0, 1⟩⟩, ⟨"zs", ⟨"int", 0, 2⟩⟩, ⟨"qs", ⟨"PAIR", 0, 1⟩⟩, ⟨"cs", ⟨"int", 0, 1⟩⟩,
+                        ⟨"xs", ⟨"int", 0, 1⟩⟩] [⟨"r", xInt⟩]),
+        ("INNER", .pipeline [⟨"x", xInt⟩, ⟨"k", xInt⟩]
+            [⟨"y", xInt⟩, ⟨"zs", ⟨"int", 0, 1⟩⟩, ⟨"q", xPair⟩, ⟨"c", xInt⟩, ⟨"x2", xInt⟩]
+          [ { id := "WORK", callee := "WORK", mapped := false, disabled := none,
+              binds := [⟨"x", false, .self "x" []⟩, ⟨"k", false, .self "k" []⟩] },
+            { id := "CONST", callee := "CONST", mapped := false, disabled := none,
+              binds := [⟨"k", false, .self "k" []⟩] },
+            { id := "W2", callee := "WORK", mapped := true, disabled := none,
+              binds := [⟨"x", true, .arr [.self "x" [], .lit (.atom "7")]⟩, ⟨"k", false, .ref "WORK" ["y"]⟩] } ]
+          [("y", .ref "WORK" ["y"]), ("zs", .ref "W2" ["y"]), ("q", .ref "WORK" ["q"]),
+           ("c", .ref "CONST" ["c"]), ("x2", .self "x" [])]),
+        ("TOP", .pipeline [⟨"v", xInt⟩] [⟨"ys", ⟨"int", 0, 1⟩⟩, ⟨"r", xInt⟩]
+          [ { id := "GEN", callee := "GEN", mapped := false, disabled := none,
+              binds := [⟨"n", false, .self "v" []⟩] },
+            { id := "INNER", callee := "INNER", mapped := true, disabled := none,
+              binds := [⟨"x", true, .arr [.lit (.atom "1"), .self "v" [], .ref "GEN" ["x"]]⟩,
+                        ⟨"k", false, .ref "GEN" ["x"]⟩] },
+            { id := "USE", callee := "USE", mapped := false, disabled := none,
+              binds := [⟨"ys", false, .ref "INNER" ["y"]⟩, ⟨"zs", false, .ref "INNER" ["zs"]⟩,
+                        ⟨"qs", false, .ref "INNER" ["q"]⟩, ⟨"cs", false, .ref "INNER" ["c"]⟩,
+                        ⟨"xs", false, .ref "INNER" ["x2"]⟩] } ]
+          [("ys", .ref "INNER" ["y"]), ("r", .ref "USE" ["r"])]) ]
+    top := { id := "TOP", callee := "TOP", mapped := false, disabled := none,
+             binds := [⟨"v", false, .lit (.atom "5")⟩] } }
+
+def exPipeOracle : Oracle := fun k =>
+  if k.path == ["TOP", "GEN"] then some (.obj [("p", .obj [("a", .atom "1"), ("b", .atom "\"x\"")]), ("x", .atom "3")])
+  else if k.path == ["TOP", "INNER", "WORK"] then
+    match k.forks with
+    | [("INNER", .i n)] => some (.obj [("y", .atom (toString (10 + n))),
+        ("q", .obj [("a", .atom (toString (20 + n))), ("b", .atom "\"q\"")])])
+    | _ => none
+  else if k.path == ["TOP", "INNER", "CONST"] then some (.obj [("c", .atom "4")])
+  else if k.path == ["TOP", "INNER", "W2"] then
+    match k.forks with
+    | [("INNER", .i n), ("W2", .i m)] => some (.obj [("y", .atom (toString (100 + 10 * n + m))), ("q", .null)])
+    | _ => none
+  else if k.path == ["TOP", "USE"] then some (.obj [("r", .atom "99")])
+  else none
+
+def exPipeStore : Store :=
+  storeOfNodes exNm (flattenTList [] (staticProgramT exPipe exNm).2) exPipeOracle
 
 def exMapStore : Store := storeOfNodes exNm (staticProgram exMap exNm).2 exMapOracle
 
